@@ -146,14 +146,13 @@ def option_cases(ctx):
     stops = ctx.model().run(['optparse istop'])[0].split()
     for opt in ('imin', 'imax'):
         for val in OPT_VALUES:
-            if val == '':
-                continue      # clingo's own option parser rejects an empty value before telingo's callback is reached
             try:
                 iv = str(int(val))
             except ValueError:
                 iv = '-'
             m = ctx.model().run(['optparse %s %d %s' % (opt, 1 if val == '' else 0, iv)])[0]
-            args = ['--%s=%s' % (opt, val)] + (['--imax=2'] if opt == 'imin' else [])
+            # the empty value can only be given as a separate argument (`--imax ""`: no limit; `--imax=` is rejected by clingo's own option parser)
+            args = (['--%s' % opt, ''] if val == '' else ['--%s=%s' % (opt, val)]) + (['--imax=2'] if opt == 'imin' else [])
             p = subprocess.run(['/venv/bin/python', '-m', 'telingo'] + args, input=b'a.\n', stdout=subprocess.PIPE, stderr=subprocess.PIPE, env=env, cwd='/', timeout=60)
             n += 1
             out = p.stdout.decode(errors='replace') + p.stderr.decode(errors='replace')
